@@ -241,13 +241,54 @@ func helperKSites(a *an.Atom) (call *ssa.Call, sites []ssa.Instruction, conds []
 				}
 			default:
 				if want.Value == nil {
-					continue // a non-constant error value: not the nil constant (errors produced by calls are failures)
+					// a non-constant error value may be nil at run time (`return validate(x)`): only a freshly constructed error,
+					// or (a wrap of) an error value tested non-nil on every path to this return, is a failure for sure
+					if errorSurelyNonNil(cd.v, cd.site, h) {
+						continue
+					}
+					sites = append(sites, cd.site)
+					continue
 				}
 				return nil, nil, nil, false
 			}
 		}
 	}
 	return call, sites, conds, true
+}
+
+// errorSurelyNonNil: error value v returned at `site` of fn is never nil there: built by an error constructor, or a (wrapped)
+// error value e with every path to the site passing [e != nil].
+func errorSurelyNonNil(v ssa.Value, site ssa.Instruction, fn *ssa.Function) bool {
+	e := unwrapErr(v)
+	for k := 0; k < 4; k++ {
+		call, ok := e.(*ssa.Call)
+		if !ok || call.Call.StaticCallee() == nil {
+			break
+		}
+		switch call.Call.StaticCallee().String() {
+		case "fmt.Errorf", "errors.New", "github.com/pkg/errors.New", "github.com/pkg/errors.Errorf":
+			return true
+		case "github.com/pkg/errors.Wrap", "github.com/pkg/errors.Wrapf", "github.com/pkg/errors.WithStack", "github.com/pkg/errors.WithMessage":
+			if len(call.Call.Args) == 0 {
+				return false
+			}
+			e = unwrapErr(call.Call.Args[0])
+			continue
+		}
+		break
+	}
+	if _, isGlobalLoad := e.(*ssa.UnOp); isGlobalLoad {
+		if u := e.(*ssa.UnOp); u != nil {
+			if _, isG := u.X.(*ssa.Global); isG {
+				return true // a sentinel error variable
+			}
+		}
+	}
+	x, _ := an.Cut(an.CutQuery{From: an.Entry(fn), Target: func(i ssa.Instruction) bool { return i == site },
+		AcceptEdge: func(b *ssa.BasicBlock, i int, a *an.Atom) bool {
+			return a != nil && a.Op == "!=" && ((a.LV == e && isNilConst(a.RV)) || (a.RV == e && isNilConst(a.LV)))
+		}})
+	return x == nil
 }
 
 // helperEstablishes: atom a is the K-result of a helper that received (as argument accepted by matchArg) the object of
